@@ -169,6 +169,7 @@ type Op struct {
 	Err      string `json:",omitempty"`
 	Injected bool
 	seq      int
+	rawV     string // QRef: the looked-up value, interned when the operation is emitted
 }
 
 type Event struct {
@@ -208,6 +209,7 @@ type Recorder struct {
 	refOnly   map[string]string   // table -> its single content column (QRef col=1 convention)
 	cols      map[string][]string // table -> columns (after migration)
 	muted     bool
+	refBuf    []Event // real-client mode: reference lookups waiting to be emitted in canonical order
 	// SnapEvery: record the committed database after every database statement
 	SnapEvery bool
 	// SortRows (real-client mode): jrpc2's logs()/traces() attach transactions to a
@@ -233,7 +235,50 @@ func (r *Recorder) SetRunning(tid int) {
 	r.mu.Unlock()
 }
 
-func (r *Recorder) add(e Event) { r.Events = append(r.Events, e) }
+// add appends an event.  In real-client mode (SortRows) the order of the transactions inside
+// a block - and with it the order of a step's reference lookups - varies from run to run
+// (jrpc2 attaches transactions by iterating a map): a run of consecutive QRef operations of
+// one task, uninterrupted by any other event, is therefore emitted sorted by content, and
+// the looked-up values are interned in that order.
+func (r *Recorder) add(e Event) {
+	if r.SortRows && e.Kind == "op" && e.Op.Name == "QRef" {
+		if len(r.refBuf) > 0 && r.refBuf[0].Tid != e.Tid {
+			r.flushRefs()
+		}
+		r.refBuf = append(r.refBuf, e)
+		return
+	}
+	r.flushRefs()
+	r.Events = append(r.Events, e)
+}
+
+func (r *Recorder) flushRefs() {
+	if len(r.refBuf) == 0 {
+		return
+	}
+	buf := r.refBuf
+	r.refBuf = nil
+	sort.SliceStable(buf, func(i, j int) bool {
+		a, b := buf[i].Op, buf[j].Op
+		if a.Tbl != b.Tbl {
+			return a.Tbl < b.Tbl
+		}
+		if a.Col != b.Col {
+			return a.Col < b.Col
+		}
+		if a.rawV != b.rawV {
+			return a.rawV < b.rawV
+		}
+		if a.Bool != b.Bool {
+			return !a.Bool
+		}
+		return a.Fail < b.Fail
+	})
+	for _, e := range buf {
+		e.Op.V = r.names.ValID(e.Op.rawV)
+		r.Events = append(r.Events, e)
+	}
+}
 
 func (r *Recorder) Ver(v int) {
 	r.mu.Lock()
@@ -693,7 +738,10 @@ func (r *Recorder) classify(tid int, e fakepg.Entry) *Op {
 			if len(rest) >= 3 && r.refOnly[strings.TrimPrefix(e.Table, "public.")] == rest[2] {
 				op.Col = 1
 			}
-			op.V = r.names.ValID(fakepg.FormatValue(par(0)))
+			op.rawV = fakepg.FormatValue(par(0))
+			if !r.SortRows {
+				op.V = r.names.ValID(op.rawV)
+			}
 			op.Bool = len(e.Rows) > 0
 		default:
 			op.Name = "Unknown"
